@@ -402,7 +402,7 @@ func (LegacyScenario) Execute(sim *sched.Sim, ci interface{}, prop string, race 
 		sim.Optional[p] = true
 	}
 	sim.RoleOf = roleOf
-	sim.Canon = newCanon().canon
+	useCanon(sim)
 	root := tempDBDir()
 	defer os.RemoveAll(root)
 	lr.dir = filepath.Join(root, "db")
